@@ -24,6 +24,7 @@ ASSUMPTIONS = ["values whose reading is debatable (bound 2.0, numpy integers as 
 def bounds(tier):
     q = tier == "quick"
     return {"packing": f"B=6, alphabet (0,3,6,7,9), 1..{4 if q else 6} items, >=1 oversize; dyadic B=1 alphabet (0,1/2,1,9/8,2) 1..3 items",
+            "packing-zero-bin": "B=0 with items over (0,1,2), 1..3 items, >=1 positive; B=7 with items over (3, 7, 10**400)",
             "packing-huge": "B=2**53 (items 1, 2**52, 2**53, 2**53+1, 2**54), B=2**60 (5, 2**59, 2**60, 2**60+100): 1..3 items (integer bin size and integer items: the comparison is exact), >=1 oversize",
             "packing-near": f"B=2**32 alphabet (1, 2**31, 2**32, 2**32+1, 2**33); B=1.0 alphabet (0.5, 1, 1+2**-40, 1+2**-20); B=60.0 alphabet (30, 60, 60.00000001, 61): 1..{3 if q else 5} items, >=1 oversize",
             "cbldm": f"valid multisets of 0..{4 if q else 6} items over 0..3 (the empty list included); negative values -1,-3",
@@ -55,6 +56,13 @@ def tasks(tier):
         seqs = [s for s in spaces.sequences(alpha, 1, 3 if q else 5) if any(v > B for v in s)]
         for ch in spaces.chunked(seqs, 40):
             ts.append(("packing-near", ch, B))
+    # a bin of size zero (every positive item is oversize) and an integer far beyond float range
+    seqs = [s for s in spaces.sequences((0, 1, 2), 1, 3) if any(v > 0 for v in s)]
+    for ch in spaces.chunked(seqs, 40):
+        ts.append(("packing-near", ch, 0))
+    seqs = [s for s in spaces.sequences((3, 7, 10 ** 400), 1, 3) if any(v > 7 for v in s)]
+    for ch in spaces.chunked(seqs, 40):
+        ts.append(("packing-huge", ch, 7))
     for ch in scopes.chunk_multisets(range(0, 4), 1, 4 if q else 6, 12):
         ts.append(("cbldm", ch, None))
     ts.append(("cbldm", [()], None))      # no items at all + one invalid argument: still refused (the statement is unconditional)
@@ -104,7 +112,7 @@ def run_task(task):
             items = [float(v) for v in it] if scope == "packing-dyadic" else list(it)
             first_over = next(i for i, v in enumerate(items) if v > B)
             for a in scopes.PACK_ALGOS:
-                for fmt in (repo.FORMATS if scope == "packing" else ("list", "dict_str", "names")):
+                for fmt in (repo.FORMATS if scope == "packing" else ("list", "dict_str") if scope == "packing-huge" else ("list", "dict_str", "names")):
                     if scope == "packing-near" and fmt == "names":
                         fmt = "array"
                     for o in scopes.OUTS:
